@@ -324,13 +324,13 @@ func DirectiveUnionState(l *lexer) stateFn {
 	//skip space
 	for {
 		r := l.next()
-		if r != ' ' && r != '\t' {
+		if r != ' ' && r != '\t' && r != '\n' {
 			break
 		}
 	}
 	l.backup()
 	level := 0
-	if !l.acceptWord("{") {
+	if l.next() != '{' {
 		l.error("union directive need { to start")
 		return nil
 	}
